@@ -187,6 +187,11 @@ func runProperty(m *Model, o Options, prop string, pd PropDef, known *KnownFile,
 		fmt.Printf("VIOLATION property=%s replay=%s\n", prop, path)
 	}
 	sort.SliceStable(obls, func(i, j int) bool { return obls[i].Key < obls[j].Key })
+	if os.Getenv("RL_LIST") != "" {
+		for _, ob := range obls {
+			fmt.Printf("LIST %s | %s | %s | %s\n", ob.St, ob.Key, ob.Pos, ob.Msg)
+		}
+	}
 	for _, ob := range obls {
 		if ob.Status != Info && len(samples) < 14 {
 			samples = append(samples, map[string]string{"obligation": ob.Key, "at": ob.Pos, "status": ob.St, "finding": ob.Msg})
